@@ -34,4 +34,19 @@ PROPS = {
         "real": REAL_MODELS + ["io (H5RefFloat64 Write/Load for the hdf5-roundtrip medium)"], "stub": ["HDF5 library (fakehdf5, in-memory)"],
         "assumptions": SIM_ASSUME + ["fake HDF5 semantics (see fakehdf5/hdf5.go header)"],
     },
+    "C14": {
+        "engine": "pure", "level": "exploration", "race": False,
+        "quick": {"runs": 1200, "budget_s": 120},
+        "thorough": {"runs": 250000, "budget_s": 1500},
+        "rule": "one run = one seeded history of 8-40 operations over 2-4 argument sets (model, 1-3 cells, parameter sets, inputs, states) and a pool of model objects: re-run on the same object, on a fresh object, after other models ran, after the caller overwrote the buffers of earlier calls, with the input series truncated at t or its tail replaced, and two models concurrently as tasks under the seeded scheduler; every execution is compared bit-for-bit with the first execution of the same arguments in that history; non-trivial = the history contains at least one re-execution after another operation",
+        "real": REAL_MODELS, "stub": STUB_NONE, "assumptions": SIM_ASSUME + ["the pristine result of an argument set is its first execution on a fresh object within the same history (so that a replay in a fresh process sees the same history)"],
+    },
+    "C17": {
+        "engine": "jsonrun", "level": "fault_enumeration", "race": False,
+        "quick": {"runs": 800, "budget_s": 120},
+        "thorough": {"runs": 80000, "budget_s": 1500},
+        "rule": "one evaluation = one delivery of one seeded request (any catalogued model, any subset/superset/order of parameters and inputs, equal/unequal/missing series, unknown model, no name, non-finite recipes, split on/off) through a fault-injecting io.Reader: the complete document in seeded chunk sizes, trailing garbage, truncation at EVERY byte offset of the request (exhaustive per request), sampled single-byte corruption/insertion/deletion and a reader error in mid-stream; every delivery must return without a panic and write exactly one well-formed Log/RunResults document; complete valid requests must equal a direct one-cell run, name every defaulted parameter and missing input, and encode non-finite values as NaN/+Inf/-Inf; every delivery is distinct and exercises the decoder, so all count as non-trivial",
+        "real": REAL_MODELS + ["sim.RunSingleModelJSON", "io/json"], "stub": ["stdin/stdout replaced by a fault-injecting reader and a recording writer"],
+        "assumptions": SIM_ASSUME + ["encoding/json is used by the oracle to decide whether delivered bytes are a decodable request", "writer errors are not injected (an erroring writer cannot receive the promised document)"],
+    },
 }
